@@ -74,6 +74,53 @@ static void run_op(const std::vector<std::string> &w, const std::string &, out &
         check_frame(codec, p, f, o);
         return;
     }
+    if (op == "vecbuf")
+    {
+        // the buffer the self-sizing overload allocates: ret.resize(sz*2+4) on an empty vector
+        // allocates exactly that many bytes and the later shrinking resize keeps the allocation,
+        // so capacity() of the returned vector is the buffer size the frame was written into
+        std::vector<bytes> pieces;
+        for (size_t i = 2; i < w.size(); i++) pieces.push_back(unhex(w[i]));
+        gstuff_context ctx;
+        codec_ctx(codec, ctx);
+        std::vector<exact_buf *> bufs;
+        std::vector<iovec> vec;
+        for (auto &x : pieces)
+        {
+            bufs.push_back(new exact_buf(x));
+            vec.push_back(iovec{bufs.back()->p, x.size()});
+        }
+        std::vector<uint8_t> f = gstuffing_v(vec.data(), vec.size(), ctx);
+        size_t n = total_len(pieces);
+        o.result = std::to_string(f.capacity());
+        if (f.capacity() < 2 * n + 4) o.fail("self-sized buffer smaller than the worst-case frame 2n+4");
+        if (pieces.size() == 1)
+        {
+            std::vector<uint8_t> g = gstuffing(igris::buffer((char *)bufs[0]->p, pieces[0].size()), ctx);
+            if (g.capacity() != f.capacity()) o.fail("gstuffing(buffer) sizes its buffer differently from gstuffing_v(vec)");
+        }
+        for (auto b : bufs) delete b;
+        o.tag("self-sized");
+        return;
+    }
+    if (op == "rtraw")
+    {
+        // recorded finding C04-legacy-line-keeps-crc: what the legacy API hands over AS IT IS
+        // (sline_getline / sline_size) judged against "content equals the payload"
+        unsigned cap = (unsigned)strtoul(w[2].c_str(), 0, 10);
+        bytes p = unhex(w[3]);
+        bytes f = enc_pieces(codec, {p}, 2 * p.size() + 4);
+        std::string sts;
+        std::vector<bytes> packets, raw;
+        leg_feed(f, cap, sts, packets, raw);
+        trace t;
+        t.sts = sts;
+        t.packets = raw;
+        o.result = t.show();
+        if (raw.size() != 1 || raw[0] != p)
+            o.fail("legacy API hands over payload ++ crc8 (sline_size = n + 1), not the payload");
+        return;
+    }
     if (op == "rt")
     {
         unsigned cap = (unsigned)strtoul(w[2].c_str(), 0, 10);
@@ -211,12 +258,32 @@ static void gen(rng &r, const std::string &tier)
             else
                 printf("enc leg %s\n", hex(p).c_str());
         }
+        // (3b) size of the self-allocated buffer
+        if (ci < 2)
+            for (int rep = 0; rep < (th ? 200 : 30); rep++)
+            {
+                size_t n = rep < 8 ? (size_t)rep : r.below(300);
+                bytes p = rnd_payload(r, a, n);
+                size_t cut = r.below(n + 1);
+                if (rep % 2) printf("vecbuf %s %s\n", codec, hex(p).c_str());
+                else printf("vecbuf %s %s %s\n", codec, hex(bytes(p.begin(), p.begin() + cut)).c_str(), hex(bytes(p.begin() + cut, p.end())).c_str());
+            }
         // (4) receive buffers that are too small: must report overflow
         for (int rep = 0; rep < (th ? 300 : 40); rep++)
         {
             size_t n = 1 + r.below(30);
             bytes p = rnd_payload(r, a, n);
             printf("rt %s %d %s\n", codec, (int)r.range(2, (int)n + 1), hex(p).c_str());
+        }
+    }
+    // (5) recorded finding C04-legacy-line-keeps-crc: the legacy receiver leaves the CRC byte in
+    // the line it hands over
+    {
+        alphabet a = alpha_leg();
+        for (int rep = 0; rep < 12; rep++)
+        {
+            bytes p = rnd_payload(r, a, rep < 3 ? (size_t)rep : r.below(20));
+            printf("@F:C04-legacy-line-keeps-crc rtraw leg %d %s\n", (int)p.size() + 2 + (int)r.below(3), hex(p).c_str());
         }
     }
 }
